@@ -60,6 +60,20 @@ type c03Cfg struct {
 	BreakSync   string        // self-test: Sync() of this file degrades to Flush() during the workload
 	Sched       *c03Sched     // scheduled workload: late committers are started from a storage op of a durability round
 	AckOnly     bool          // crash images only right after every acknowledgement (+ end of the log); the trace oracles run in full
+	// index-flush-heavy workloads (c03_index.go)
+	IdxHeavy  bool // sequential commits, each one indexed before the next; un-fsynced index flushes in between (IdxFlush small, IdxSync large)
+	FreshPct  int  // IdxHeavy: chance (%) that a tx writes only keys never written before (its index snapshot appends no history)
+	IdxBulk   int  // IndexOptions.MaxBulkSize (0: default)
+	MultiIdx  bool // MultiIndexing: no default index, two plain secondary indexes on the prefixes key-0 / key-1 (keys key-2x are not indexed)
+	IdxPoints bool // crash points only where an index log was flushed/fsynced (+ the mandatory ones); index-specific survival choices in full
+	// Script: deterministic templates: the workload is this function (sequential; IdxHeavy plumbing: every commit is indexed before it returns)
+	Script func(s *c03Script)
+}
+
+// c03Script: what a scripted workload may do
+type c03Script struct {
+	Commit func(ki int, val []byte) // one tx {key-ki: val}, acknowledged and indexed
+	Flush  func(synced bool)        // FlushIndexes(0, synced)
 }
 
 // c03Sched: interleaving control through the storage layer.  When the store (its syncer, inside sync()) is about to perform
@@ -90,8 +104,12 @@ func (c c03Cfg) String() string {
 	if c.Sched != nil {
 		sched = " sched=" + c.Sched.String()
 	}
-	return fmt.Sprintf("%s{emb=%v fsz=%d wbuf=%d maxActive=%d ahtSync=%d idxFlush=%d/%d ioc=%d allowance=%v committers=%d ntx=%d v%d discard=%v%s}",
-		c.Name, c.Embedded, c.FileSize, c.WriteBuf, c.MaxActive, c.AhtSyncThld, c.IdxFlush, c.IdxSync, c.IOConc, c.Allowance, c.Committers, c.NTx, c.HdrVersion, c.Discard, sched)
+	idx := ""
+	if c.IdxHeavy || c.MultiIdx {
+		idx = fmt.Sprintf(" idxHeavy=%v fresh=%d%% bulk=%d multiIdx=%v keys=%d", c.IdxHeavy, c.FreshPct, c.IdxBulk, c.MultiIdx, c.KeySpace)
+	}
+	return fmt.Sprintf("%s{emb=%v fsz=%d wbuf=%d maxActive=%d ahtSync=%d idxFlush=%d/%d ioc=%d allowance=%v committers=%d ntx=%d v%d discard=%v%s%s}",
+		c.Name, c.Embedded, c.FileSize, c.WriteBuf, c.MaxActive, c.AhtSyncThld, c.IdxFlush, c.IdxSync, c.IOConc, c.Allowance, c.Committers, c.NTx, c.HdrVersion, c.Discard, sched, idx)
 }
 
 var c03Clock int64
@@ -102,6 +120,9 @@ func c03Opts(cfg c03Cfg, fs *crashfs.FS, allowance bool) *store.Options {
 		WithBulkPreparationTimeout(100 * time.Microsecond)
 	if cfg.IdxNodeSize > 0 {
 		idx.WithMaxNodeSize(cfg.IdxNodeSize)
+	}
+	if cfg.IdxBulk > 0 {
+		idx.WithMaxBulkSize(cfg.IdxBulk)
 	}
 	aht := store.DefaultAHTOptions().WithSyncThld(cfg.AhtSyncThld).WithWriteBufferSize(cfg.AhtWriteBuf)
 	sf := 200 * time.Microsecond
@@ -117,7 +138,7 @@ func c03Opts(cfg c03Cfg, fs *crashfs.FS, allowance bool) *store.Options {
 		WithEmbeddedValues(cfg.Embedded).WithWriteTxHeaderVersion(cfg.HdrVersion).WithLogger(quietLogger()).
 		WithTxLogCacheSize(8).WithMaxWaitees(16).
 		WithAppFactory(fs.Factory()).WithAppRemoveFunc(fs.Remove()).
-		WithExternalCommitAllowance(allowance).
+		WithExternalCommitAllowance(allowance).WithMultiIndexing(cfg.MultiIdx).
 		WithTimeFunc(func() time.Time { return time.Unix(1700000000+atomic.AddInt64(&c03Clock, 1), 0) }).
 		WithIndexOptions(idx).WithAHTOptions(aht)
 }
@@ -168,6 +189,15 @@ func c03Open(cfg c03Cfg, img *crashfs.Image, allowance bool, tag string) (st *st
 			}
 		}()
 		s, e := store.Open(db, c03Opts(cfg, fs, allowance))
+		if e == nil && cfg.MultiIdx {
+			for _, d := range c03IdxDefs(cfg) {
+				if e = s.InitIndexing(d.spec()); e != nil {
+					s.Close()
+					s, e = nil, fmt.Errorf("InitIndexing(%s): %w", d.Tgt, e)
+					break
+				}
+			}
+		}
 		ch <- res{s, e}
 	}()
 	select {
@@ -203,6 +233,58 @@ func c03Workload(r *hx.Result, rng *hx.Rng, cfg c03Cfg, base *crashfs.Image, inh
 	ctx, cancel := context.WithCancel(context.Background())
 	defer cancel()
 
+	// IdxHeavy: which keys have been written so far in the life of this directory (inherited txs included)
+	used := map[int]bool{}
+	for _, t := range inherit {
+		for _, k := range t.Keys {
+			var ki int
+			if _, e := fmt.Sscanf(string(k), "key-%02d", &ki); e == nil {
+				used[ki] = true
+			}
+		}
+	}
+	// pickKeys: the key indexes of the next tx.  FreshPct% of the txs of an IdxHeavy workload write only never-written keys
+	// (nothing is appended to the index history log by the snapshot that holds them), the others update written keys.
+	pickKeys := func(rg *hx.Rng, ne int) []int {
+		var out []int
+		seen := map[int]bool{}
+		if !cfg.IdxHeavy {
+			for e := 0; e < ne; e++ {
+				if ki := rg.Intn(cfg.KeySpace); !seen[ki] {
+					seen[ki] = true
+					out = append(out, ki)
+				}
+			}
+			return out
+		}
+		mu.Lock()
+		defer mu.Unlock()
+		var old, fresh []int
+		for ki := 0; ki < cfg.KeySpace; ki++ {
+			if used[ki] {
+				old = append(old, ki)
+			} else {
+				fresh = append(fresh, ki)
+			}
+		}
+		pool := old
+		if len(old) == 0 || (len(fresh) > 0 && rg.Chance(cfg.FreshPct)) {
+			pool = fresh
+		}
+		for e := 0; e < ne && len(pool) > 0; e++ {
+			if ki := pool[rg.Intn(len(pool))]; !seen[ki] {
+				seen[ki] = true
+				used[ki] = true
+				out = append(out, ki)
+			}
+		}
+		return out
+	}
+	var lastAckedID uint64
+	var scripted *struct {
+		ki  int
+		val []byte
+	}
 	var onCommitCall func() // scheduled workloads: invoked right before Commit/AsyncCommit is called
 	commitOne := func(rg *hx.Rng, cctx context.Context) {
 		signalled := false
@@ -222,16 +304,17 @@ func c03Workload(r *hx.Result, rng *hx.Rng, cfg c03Cfg, base *crashfs.Image, inh
 			ne = 1
 		}
 		var keys, vals [][]byte
-		seen := map[int]bool{}
-		for e := 0; e < ne; e++ {
-			ki := rg.Intn(cfg.KeySpace)
-			if seen[ki] {
-				continue
-			}
-			seen[ki] = true
+		kis := pickKeys(rg, ne)
+		if scripted != nil {
+			kis = []int{scripted.ki}
+		}
+		for _, ki := range kis {
 			v := rg.Bytes(rg.Size(cfg.MaxVal))
 			if cfg.FixedVal > 0 {
 				v = rg.Bytes(cfg.FixedVal)
+			}
+			if scripted != nil {
+				v = scripted.val
 			}
 			if tx.Set(c03Key(ki), nil, v) != nil {
 				return
@@ -278,6 +361,9 @@ func c03Workload(r *hx.Result, rng *hx.Rng, cfg c03Cfg, base *crashfs.Image, inh
 		t := &c03Tx{ID: hdr.ID, Hdr: *hdr, Alh: hdr.Alh(), Keys: keys, Vals: vals}
 		mu.Lock()
 		run.Acked[hdr.ID] = t
+		if hdr.ID > lastAckedID {
+			lastAckedID = hdr.ID
+		}
 		mu.Unlock()
 		fs.Mark("ack", hdr.ID)
 		mu.Lock()
@@ -285,8 +371,74 @@ func c03Workload(r *hx.Result, rng *hx.Rng, cfg c03Cfg, base *crashfs.Image, inh
 		mu.Unlock()
 	}
 
-	if cfg.Sched != nil {
+	if cfg.Script != nil {
+		rg := rng.Fork()
+		waitIdx := func() {
+			if lastAckedID > 0 {
+				wctx, wcancel := context.WithTimeout(ctx, 20*time.Second)
+				st.WaitForIndexingUpto(wctx, lastAckedID)
+				wcancel()
+			}
+		}
+		waitIdx() // recovered txs are re-indexed before the script starts
+		if p := st.LastCommittedTxID(); p > 0 {
+			wctx, wcancel := context.WithTimeout(ctx, 20*time.Second)
+			st.WaitForIndexingUpto(wctx, p)
+			wcancel()
+		}
+		cfg.Script(&c03Script{
+			Commit: func(ki int, val []byte) {
+				scripted = &struct {
+					ki  int
+					val []byte
+				}{ki, val}
+				commitOne(rg, ctx)
+				scripted = nil
+				waitIdx()
+			},
+			Flush: func(synced bool) {
+				st.FlushIndexes(0, synced)
+				fs.Mark("index-flushed", 0)
+			},
+		})
+	} else if cfg.Sched != nil {
 		c03Scheduled(r, rng, cfg, fs, ctx, &mu, commitOne, &onCommitCall)
+	} else if cfg.IdxHeavy {
+		// one tx at a time, indexed before the next one is committed; index flushes by FlushThld and on demand, almost never
+		// fsynced: between two fsyncs the index commit log collects several snapshots, some with and some without a history append
+		rg := rng.Fork()
+		wait := func() {
+			mu.Lock()
+			id := lastAckedID
+			mu.Unlock()
+			if id > 0 {
+				wctx, wcancel := context.WithTimeout(ctx, 5*time.Second)
+				if st.WaitForIndexingUpto(wctx, id) != nil {
+					r.Count("workload.idx-heavy.indexing-not-caught-up")
+				}
+				wcancel()
+			}
+		}
+		// the store may have re-indexed recovered txs while opening: put them into a snapshot of their own first
+		if len(inherit) > 0 && rg.Chance(70) {
+			wait()
+			st.FlushIndexes(0, false)
+			fs.Mark("index-flushed", 0)
+		}
+		for i := 0; i < cfg.NTx; i++ {
+			commitOne(rg, ctx)
+			if rg.Chance(85) {
+				wait()
+			}
+			switch {
+			case rg.Chance(55):
+				st.FlushIndexes(0, false)
+				fs.Mark("index-flushed", 0)
+			case rg.Chance(6):
+				st.FlushIndexes(0, true)
+				fs.Mark("index-synced", 0)
+			}
+		}
 	} else if !cfg.Allowance {
 		var wg sync.WaitGroup
 		per := cfg.NTx / cfg.Committers
@@ -460,8 +612,9 @@ type c03Obs struct {
 	Committed uint64
 	Precomm   uint64
 	Failed    []string
-	RecLog    []crashfs.Op // ops performed by recovery (up to the "opened" mark)
+	RecLog    []crashfs.Op   // ops performed by recovery (up to the "opened" mark)
 	PostAck   *crashfs.Image // power loss right after the fresh commit was acknowledged (durable data only)
+	SessLog   []crashfs.Op   // every storage op of the oracle's own session up to PostAck (recovery of the image included)
 	FinalImg  *crashfs.Image
 	AckedNew  map[uint64]*c03Tx
 }
@@ -524,6 +677,9 @@ func c03CheckInner(r *hx.Result, run *c03Run, img *crashfs.Image, acked []*c03Tx
 	fail := func(sig, desc string) {
 		obs.Failed = append(obs.Failed, sig)
 		r.Fail(sig, desc+" | "+cfg.String()+" crash@"+fmt.Sprint(pt.K)+" "+pt.Choice, replay(desc))
+		if os.Getenv("VERIF_C03_DEBUG") != "" && strings.Contains(sig, "index-inconsistent") {
+			c03IndexDebug(run, img, obs)
+		}
 	}
 	r.OracleChecks++
 	// reopened with the external commit allowance ON so that the recovered (committed, precommitted) pair is stable
@@ -600,8 +756,8 @@ func c03CheckInner(r *hx.Result, run *c03Run, img *crashfs.Image, acked []*c03Tx
 	alhs := make([][32]byte, pid+1)
 	hdrs := make([]*store.TxHeader, pid+1)
 	alhs[0] = sha256.Sum256(nil)
-	latest := map[string][]byte{}
-	latestTx := map[string]uint64{}
+	var recTxs []c04Tx // the recovered committed history, as read back from the tx log + value logs (input of the index comprehension)
+	valuesOK := true
 	chainOK := true
 	for id := uint64(1); id <= pid; id++ {
 		h, err := st.ReadTxHeader(id, id > cid, false)
@@ -645,15 +801,17 @@ func c03CheckInner(r *hx.Result, run *c03Run, img *crashfs.Image, acked []*c03Tx
 				chainOK = false
 				continue
 			}
+			rt := c04Tx{ID: id}
 			for _, e := range tx.Entries() {
 				v, err := st.ReadValue(e)
 				if err != nil {
 					fail("C03:recovery:recovered-tx-values-unreadable", fmt.Sprintf("recovered committed tx %d (acked max %v): value of %s unreadable: %v", id, maxAckedID(maxAcked), e.Key(), err))
+					valuesOK = false
 					continue
 				}
-				latest[string(e.Key())] = v
-				latestTx[string(e.Key())] = id
+				rt.Ents = append(rt.Ents, c04Ent{Key: append([]byte{}, e.Key()...), Val: v})
 			}
+			recTxs = append(recTxs, rt)
 		}
 		// (precommitted txs: their bodies/values are checked below, once they are committed.  ExportTx(allowPrecommitted) is not
 		//  used: it maps an unreadable value to a "truncated" one and, on "partially truncated transaction", returns with
@@ -683,24 +841,59 @@ func c03CheckInner(r *hx.Result, run *c03Run, img *crashfs.Image, acked []*c03Tx
 					fail("C03:recovery:chain-broken", fmt.Sprintf("tx %d unreadable after committing the recovered precommitted txs: %v", id, err))
 					continue
 				}
+				rt := c04Tx{ID: id}
 				for _, e := range tx.Entries() {
 					if v, err := st.ReadValue(e); err == nil {
-						latest[string(e.Key())] = v
-						latestTx[string(e.Key())] = id
+						rt.Ents = append(rt.Ents, c04Ent{Key: append([]byte{}, e.Key()...), Val: v})
 					} else {
 						fail("C03:recovery:recovered-tx-values-unreadable", fmt.Sprintf("tx %d committed after recovery: value of %s unreadable: %v", id, e.Key(), err))
+						valuesOK = false
 					}
 				}
+				recTxs = append(recTxs, rt)
 			}
 		}
 	}
-	// (5) index
-	if chainOK && len(obs.Failed) == 0 {
+	// (5) index: every index of the store = the comprehension of the recovered committed history (c03_index.go)
+	if chainOK && len(obs.Failed) == 0 && valuesOK {
+		// cause attribution of READ ERRORS inside the index: known finding 4 needs a never-fsynced tail of an EARLIER chunk file of
+		// an index log to be lost (a hole in the image); a read error on an image without such a hole is a different defect
+		readErrSig := "C03:recovery:index-inconsistent:read-error"
+		if c03IndexLostChunkTail(img) && c03RecoveryFollowsSpec(cfg, img, obs.RecLog) {
+			// finding 4: whatever the index returns (an error where the range is a hole, older bytes where a stale tail lies under
+			// the lost range) is explained by the lost chunk tail, provided the recovery kept what the documented walk keeps
+			readErrSig = "C03:recovery:index-inconsistent:get-error"
+			r.Count("recovered.index-log-lost-a-never-fsynced-tail-of-an-earlier-chunk")
+			inner := fail
+			fail = func(sig, desc string) {
+				switch sig {
+				case "C03:recovery:index-inconsistent", "C03:recovery:index-inconsistent:history-differs-from-log",
+					"C03:recovery:index-inconsistent:scan-differs-from-log", "C03:recovery:index-inconsistent:read-error":
+					sig, desc = "C03:recovery:index-inconsistent:get-error", desc+" | cause: an index log lost written, never-fsynced bytes of an earlier chunk file (multiapp.Sync reaches the current chunk only)"
+				}
+				inner(sig, desc)
+			}
+		}
+		// ... and known findings 5 / 6 need an index commit entry among the snapshots the recovery kept that was never written as a
+		// whole (torn over a stale entry) / that is a stale entry of an earlier life past the rewound end
+		{
+			if csig, why := c03IndexEntryCause(run, img, pt.K, obs.RecLog); csig != "" {
+				r.Count("recovered.index-commit-entry-kept-by-recovery." + csig)
+				inner := fail
+				fail = func(sig, desc string) {
+					if strings.HasPrefix(sig, "C03:recovery:index-inconsistent") {
+						sig, desc = "C03:recovery:index-inconsistent:"+csig, desc+" | cause: "+why
+					}
+					inner(sig, desc)
+				}
+				readErrSig = "C03:recovery:index-inconsistent:" + csig
+			}
+		}
 		ictx, icancel := context.WithTimeout(ctx, 3*time.Second)
 		ierr := st.WaitForIndexingUpto(ictx, pid)
 		icancel()
 		if err := ierr; err != nil {
-			// the indexer is stuck: if the index cannot read one of its own nodes this is the get-error class
+			// the indexer is stuck: if the index cannot read one of its own nodes this is the read-error class
 			probe := ""
 			for k := 0; k < cfg.KeySpace && probe == ""; k++ {
 				c2, cancel2 := context.WithTimeout(context.Background(), time.Second)
@@ -710,7 +903,7 @@ func c03CheckInner(r *hx.Result, run *c03Run, img *crashfs.Image, acked []*c03Tx
 				cancel2()
 			}
 			if probe != "" {
-				fail("C03:recovery:index-inconsistent:get-error", fmt.Sprintf("indexing stalls (WaitForIndexingUpto(%d): %v) and %s: the recovered index cannot read one of its nodes", pid, err, probe))
+				fail(readErrSig, fmt.Sprintf("indexing stalls (WaitForIndexingUpto(%d): %v) and %s: the recovered index cannot read one of its nodes", pid, err, probe))
 			} else {
 				// no evidence of a broken index: maybe only a slow machine; give it much more time before calling it a stall
 				ictx2, icancel2 := context.WithTimeout(context.Background(), 30*time.Second)
@@ -720,31 +913,11 @@ func c03CheckInner(r *hx.Result, run *c03Run, img *crashfs.Image, acked []*c03Tx
 					fail("C03:recovery:index-inconsistent:indexing-stalls", fmt.Sprintf("WaitForIndexingUpto(%d): %v", pid, err2))
 				} else {
 					r.Count("recovered.indexing-slow-but-completed")
+					c03IndexOracle(r, st, cfg, recTxs, pid, maxAckedID(maxAcked), readErrSig, fail)
 				}
 			}
 		} else {
-			for k := 0; k < cfg.KeySpace; k++ {
-				key := c03Key(k)
-				vr, err := st.Get(ctx, key)
-				w, have := latest[string(key)]
-				switch {
-				case !have && err != nil && !errors.Is(err, store.ErrKeyNotFound):
-					fail("C03:recovery:index-inconsistent:get-error", fmt.Sprintf("Get(%s) (never written): %v: the recovered index cannot read one of its nodes", key, err))
-				case !have:
-					if !errors.Is(err, store.ErrKeyNotFound) {
-						fail("C03:recovery:index-inconsistent", fmt.Sprintf("Get(%s) of a never written key: %v", key, err))
-					}
-				case err != nil && !errors.Is(err, store.ErrKeyNotFound):
-					fail("C03:recovery:index-inconsistent:get-error", fmt.Sprintf("Get(%s): %v, log says tx %d (acked max %d): the recovered index cannot read one of its nodes", key, err, latestTx[string(key)], maxAckedID(maxAcked)))
-				case err != nil:
-					fail("C03:recovery:index-inconsistent", fmt.Sprintf("Get(%s): %v, log says tx %d", key, err, latestTx[string(key)]))
-				default:
-					v, rerr := vr.Resolve()
-					if rerr != nil || !bytes.Equal(v, w) || vr.Tx() != latestTx[string(key)] {
-						fail("C03:recovery:index-inconsistent", fmt.Sprintf("Get(%s) = tx %d (resolve err %v), log says tx %d", key, vr.Tx(), rerr, latestTx[string(key)]))
-					}
-				}
-			}
+			c03IndexOracle(r, st, cfg, recTxs, pid, maxAckedID(maxAcked), readErrSig, fail)
 		}
 	}
 	// (6) a fresh commit succeeds, is readable and extends the chain
@@ -791,6 +964,7 @@ func c03CheckInner(r *hx.Result, run *c03Run, img *crashfs.Image, acked []*c03Tx
 	}
 	if len(obs.AckedNew) > 0 {
 		obs.PostAck = fs.ImageDurableOnly()
+		obs.SessLog = fs.Log()
 	}
 	closed = true
 	if err := st.Close(); err != nil {
@@ -831,7 +1005,7 @@ func fileClass(n string) string {
 }
 
 // choices for one crash point. pend: per file the sizes of the written, un-fsynced append fragments.
-func c03Choices(rng *hx.Rng, pend map[string][]int, thorough bool, nSample int) []c03Choice {
+func c03Choices(rng *hx.Rng, pend map[string][]int, thorough bool, nSample int, idxPct int) []c03Choice {
 	out := []c03Choice{{Name: "none-survive"}}
 	if len(pend) == 0 {
 		return out
@@ -903,6 +1077,8 @@ func c03Choices(rng *hx.Rng, pend map[string][]int, thorough bool, nSample int) 
 			}
 		}
 	}
+	// the logs of one index lose their un-fsynced suffixes independently of each other (c03_index.go)
+	out = append(out, c03IndexChoices(rng, pend, names, idxPct)...)
 	for i := 0; i < nSample; i++ {
 		s := map[string]crashfs.Surv{}
 		for _, n := range names {
@@ -919,10 +1095,12 @@ func c03Choices(rng *hx.Rng, pend map[string][]int, thorough bool, nSample int) 
 }
 
 type c03Picked struct {
-	Img      *crashfs.Image
-	Acked    map[uint64]*c03Tx
-	Universe map[[32]byte]bool
-	Lineage  string
+	Img       *crashfs.Image
+	Acked     map[uint64]*c03Tx
+	Universe  map[[32]byte]bool
+	Lineage   string
+	Choice    string
+	StaleTail [3]int // bytes of the index history / nodes / commit logs past the logical ends the recovery of this image set
 }
 
 type c03Stats struct {
@@ -932,6 +1110,12 @@ type c03Stats struct {
 // c03Enumerate walks the recorded log, producing and checking crash images.  every: check each every-th crash point (1 = all).
 // pick: optionally collects some recovered final images (after the fresh commit) to start a follow-up workload from (double crash).
 func c03Enumerate(r *hx.Result, rng *hx.Rng, run *c03Run, thorough bool, nSample int, every int, recurse int, deadline time.Time, pick *[]c03Picked, tr *c03Trace) c03Stats {
+	return c03EnumerateL(r, rng, run, thorough, nSample, every, recurse, deadline, pick, tr, nil)
+}
+
+// c03EnumerateL: lives != nil collects the crash images themselves (not the cleanly closed store after recovery) that were
+// produced by an index-specific survival choice and passed the oracle: the next life of the directory starts from one of them.
+func c03EnumerateL(r *hx.Result, rng *hx.Rng, run *c03Run, thorough bool, nSample int, every int, recurse int, deadline time.Time, pick *[]c03Picked, tr *c03Trace, lives *[]c03Picked) c03Stats {
 	var stt c03Stats
 	state := crashfs.NewState(run.Base, true)
 	if run.Cfg.BreakSync != "" {
@@ -968,16 +1152,37 @@ func c03Enumerate(r *hx.Result, rng *hx.Rng, run *c03Run, thorough bool, nSample
 			ackOnly = true
 		}
 		afterAck := k > 0 && run.Log[k-1].Kind == crashfs.KMark && run.Log[k-1].Note == "ack" && acked[run.Log[k-1].Arg] != nil
-		if ackOnly && !afterAck && k != len(run.Log) {
+		idxPoint := !run.Cfg.IdxPoints || (k > 0 && c03IsIndexFlushPoint(&run.Log[k-1]))
+		if (ackOnly || !idxPoint) && !afterAck && k != len(run.Log) {
 			// not a mandatory point
-		} else if k%every == 0 || k == len(run.Log) || afterAck {
+		} else if k%every == 0 || k == len(run.Log) || afterAck || run.Cfg.IdxPoints {
 			stt.Points++
 			r.Count("crash.points")
 			if afterAck {
 				r.Count("crash.points.right-after-ack")
 			}
 			pend := state.Pending()
-			choices := c03Choices(rng, pend, thorough, nSample)
+			idxPct := 12
+			if thorough {
+				idxPct = 40
+			}
+			if run.Cfg.IdxPoints {
+				idxPct = 100
+			}
+			if os.Getenv("VERIF_C03_ONLY") == "first-version" {
+				idxPct = 0 // measurement aid: the enumeration of the first version of the check (no per-index-log choices, no lives)
+			}
+			choices := c03Choices(rng, pend, thorough, nSample, idxPct)
+			if run.Cfg.IdxPoints && !ackOnly {
+				// index-focused enumeration: the class choices and the torn tails of the principal logs are covered by the regular workloads
+				kept := choices[:0:0]
+				for _, ch := range choices {
+					if ch.Name == "none-survive" || ch.Name == "all-survive" || strings.HasPrefix(ch.Name, "idx-") || ch.Name == "random-prefixes" {
+						kept = append(kept, ch)
+					}
+				}
+				choices = kept
+			}
 			if ackOnly {
 				choices = choices[:1] // none-survive
 				if k == len(run.Log) && len(pend) > 0 {
@@ -995,12 +1200,48 @@ func c03Enumerate(r *hx.Result, rng *hx.Rng, run *c03Run, thorough bool, nSample
 					continue
 				}
 				seen[key] = true
+				if run.Cfg.IdxPoints && !afterAck && k != len(run.Log) {
+					// lives: one image per (crash point, fate of the principal logs, pattern the index recovery will see)
+					core := "part"
+					if ch.All {
+						core = "all"
+					} else if len(ch.Surv) == 0 {
+						core = "none"
+					} else {
+						for n, sv := range ch.Surv {
+							if c03IdxLogOf(n) == "" {
+								core = fmt.Sprintf("%v", sv.Segs >= len(pend[n]) && sv.Torn == 0)
+								break
+							}
+						}
+					}
+					pk := fmt.Sprintf("pat-%d-%s-%s", k, core, c03IndexPattern(run.Cfg, img))
+					if seen[pk] {
+						r.Count("crash.images.same-index-recovery-pattern-as-a-checked-image")
+						continue
+					}
+					seen[pk] = true
+				}
 				r.Count("crash.choice." + strings.Split(ch.Name, "-others")[0])
 				pt := c03Point{K: k, Choice: ch.Name}
 				obs := c03Check(r, run, img, ackedList(), pt, 0)
 				stt.Opened++
 				r.Count("crash.images.opened")
 				r.Eval(key, true)
+				// what this image does to the index logs (counters) + which snapshot the real recovery selected vs the model's walk
+				staleTail := c03IndexMeasure(r, run, state, img, ch, obs)
+				if lives != nil && obs.OpenErr == "" && len(obs.Failed) == 0 && strings.HasPrefix(ch.Name, "idx-") {
+					a := map[uint64]*c03Tx{}
+					for id, t := range acked {
+						a[id] = t
+					}
+					u := map[[32]byte]bool{}
+					for x := range run.Universe {
+						u[x] = true
+					}
+					*lives = append(*lives, c03Picked{Img: img, Acked: a, Universe: u, Choice: ch.Name, StaleTail: staleTail,
+						Lineage: run.Lineage + fmt.Sprintf(" -> crash@%d[%s]", k, ch.Name)})
+				}
 				if obs.OpenErr == "" {
 					r.Count(fmt.Sprintf("recovered.lost-unacked=%v", obs.Precomm < c03MaxPrecommitted(run, k)))
 					if obs.Precomm > obs.Committed {
@@ -1029,9 +1270,10 @@ func c03Enumerate(r *hx.Result, rng *hx.Rng, run *c03Run, thorough bool, nSample
 						a2 = append(a2, t)
 						run.Universe[t.Alh] = true
 					}
-					sub := &c03Run{Cfg: run.Cfg, Base: img, Log: run.Log, Acked: run.Acked, Universe: run.Universe,
+					// the life that produced this image is the oracle's own session on img: its ops are the log of the sub-run
+					sub := &c03Run{Cfg: run.Cfg, Base: img, Log: obs.SessLog, Acked: run.Acked, Universe: run.Universe,
 						Lineage: run.Lineage + fmt.Sprintf(" -> crash@%d[%s] -> recovered, 1 fresh commit acked -> power loss", k, ch.Name)}
-					o2 := c03Check(r, sub, obs.PostAck, a2, c03Point{K: k, Choice: ch.Name + " then durable-only after fresh commit"}, 1)
+					o2 := c03Check(r, sub, obs.PostAck, a2, c03Point{K: len(obs.SessLog), Choice: ch.Name + " then durable-only after fresh commit"}, 1)
 					r.Count("crash.after-recovery-and-commit.images-opened")
 					stt.Opened++
 					_ = o2
@@ -1199,7 +1441,10 @@ func runC03(r *hx.Result, rng *hx.Rng, thorough bool, replay string) error {
 		"MaxActiveTransactions, concurrent committers, external-allowance backlog, discards, index flushes, clean close) recorded on crashfs; for every crash point between two storage ops " +
 		"a set of survival choices (none, all, one file class only / all but one class, torn tail per file, random per-file prefixes; thorough: every per-file prefix at append granularity " +
 		"+ torn) is materialised and the REAL store.Open is run on it; clauses (1)-(6) are evaluated; sampled images are crashed again during recovery and after recovery+commit (double crash). " +
-		"An evaluation is non-trivial when the image was actually opened; distinct by image hash + acked frontier."
+		"An evaluation is non-trivial when the image was actually opened; distinct by image hash + acked frontier. part C (c03_index.go): the three logs of every index are cut " +
+		"independently (one log loses all / keeps all alone / keeps a proper prefix, random prefixes, torn), index-flush-heavy workloads (several un-fsynced snapshots with and without " +
+		"history append, secondary indexes, clean close), trees of lives of one directory (the next life starts from a crash image with stale tails; up to 3 crashes); on every index " +
+		"Get / History / full history scan = comprehension of the recovered tx log; the commit-log walk of OpenWith is tied to the Lean model (c03 idxwalk)."
 	if pf := os.Getenv("VERIF_C03_PROF"); pf != "" {
 		f, _ := os.Create(pf)
 		pprof.StartCPUProfile(f)
@@ -1214,9 +1459,11 @@ func runC03(r *hx.Result, rng *hx.Rng, thorough bool, replay string) error {
 		}
 	}
 	start := time.Now()
-	budget := 55 * time.Second
+	budget := 36 * time.Second
+	livesBudget := 20 * time.Second
 	if thorough {
-		budget = 11 * time.Minute
+		budget = 9 * time.Minute
+		livesBudget = 2 * time.Minute
 	}
 	deadline := start.Add(budget)
 
@@ -1226,7 +1473,7 @@ func runC03(r *hx.Result, rng *hx.Rng, thorough bool, replay string) error {
 		nA = 600
 	}
 	only := os.Getenv("VERIF_C03_ONLY") // debugging aid: "targeted" | "sched"
-	if only == "sched" {
+	if only == "sched" || only == "idxlives" {
 		nA = 0
 	}
 	for i := 0; i < nA; i++ {
@@ -1241,7 +1488,16 @@ func runC03(r *hx.Result, rng *hx.Rng, thorough bool, replay string) error {
 
 	// ---- part B
 	cfgs := c03Configs(rng, thorough)
-	if only != "" {
+	if strings.HasPrefix(only, "cfg=") {
+		// debugging aid: only the part B workload of that name (same configuration stream as a full run of the tier)
+		var keep []c03Cfg
+		for _, c := range cfgs {
+			if c.Name == strings.TrimPrefix(only, "cfg=") {
+				keep = append(keep, c)
+			}
+		}
+		cfgs = keep
+	} else if only != "" && only != "first-version" {
 		cfgs = nil
 	}
 	var tot c03Stats
@@ -1283,7 +1539,7 @@ func runC03(r *hx.Result, rng *hx.Rng, thorough bool, replay string) error {
 	// ---- scheduled concurrent committers (interleaving controlled through the storage layer)
 	schedStart := time.Now()
 	scfgs := c03SchedConfigs(rng.Fork(), thorough)
-	if os.Getenv("VERIF_C03_ONLY") == "targeted" {
+	if only == "targeted" || only == "idxlives" || strings.HasPrefix(only, "cfg=") {
 		scfgs = nil
 	}
 	for _, cfg := range scfgs {
@@ -1344,6 +1600,20 @@ func runC03(r *hx.Result, rng *hx.Rng, thorough bool, replay string) error {
 		tot.Images += s.Images
 		tot.Opened += s.Opened
 		tot.Dups += s.Dups
+	}
+	// ---- lives of a directory with several crashes, index-flush-heavy workloads, index logs cut independently (c03_index.go)
+	if strings.HasPrefix(only, "cfg=") {
+		return nil
+	}
+	if only == "" || only == "idxlives" {
+		s := c03IndexLives(r, rng.Fork(), thorough, time.Now().Add(livesBudget))
+		tot.Points += s.Points
+		tot.Images += s.Images
+		tot.Opened += s.Opened
+		tot.Dups += s.Dups
+	}
+	if only == "idxlives" {
+		return nil
 	}
 	if only == "sched" {
 		return nil
